@@ -273,6 +273,73 @@ theorem failed_fetch_releases_all_waiters (mx base : Int) (evs : List Ev) (k c :
     show (flight st'.store k c ttl now).2 = .send
     rw [hst']; exact error_not_cached hp.store k c err e hopen hfind hpe ttl now
 
+/-! ### Close releases every waiter, whatever the order of the recency list -/
+
+/-- **`Close` releases every pending waiter.** For every store state — in particular whatever the order of the
+    recency list, also when completed entries sit behind pending ones after a promotion — `Close(err)` wakes the
+    waiters of every pending entry with `err`, wakes nobody else, and leaves nothing behind. -/
+theorem close_releases_every_pending_waiter (s : State) (err : Nat) :
+    (∀ e ∈ s.list, e.pend = true → (e.id, Outcome.err err) ∈ (close s err).done) ∧
+    (∀ p ∈ (close s err).done, p ∈ s.done ∨ ∃ e ∈ s.list, e.pend = true ∧ p = (e.id, Outcome.err err)) ∧
+    (close s err).list = [] := by
+  refine ⟨?_, ?_, rfl⟩
+  · intro e he hp
+    show (e.id, Outcome.err err) ∈ s.done ++ ((s.list.filter (·.pend)).map fun e => (e.id, Outcome.err err))
+    exact List.mem_append_right _ (List.mem_map.2 ⟨e, List.mem_filter.2 ⟨he, hp⟩, rfl⟩)
+  · intro p hp
+    have hp : p ∈ s.done ++ ((s.list.filter (·.pend)).map fun e => (e.id, Outcome.err err)) := hp
+    rcases List.mem_append.1 hp with h | h
+    · exact Or.inl h
+    · obtain ⟨e, he, rfl⟩ := List.mem_map.1 h
+      have := List.mem_filter.1 he
+      exact Or.inr ⟨e, this.1, this.2, rfl⟩
+
+/-- the same for the store built by `NewSimpleCacheAdapter`: every pending slot is failed by `Close` -/
+theorem adapter_close_releases_every_pending_waiter (s : Adapter.State) (err : Nat) (k c : Bytes) (e : Adapter.AEntry)
+    (h : Adapter.slot s k c = some (some e)) : (e.id, Outcome.err err) ∈ (Adapter.close s err).done := by
+  have hmem : ∀ (m : List (Adapter.KC × Option Adapter.AEntry)) (kc : Adapter.KC) (x : Option Adapter.AEntry),
+      Adapter.get m kc = some x → (kc, x) ∈ m := by
+    intro m kc x
+    induction m with
+    | nil => intro h; simp [Adapter.get] at h
+    | cons a m ih =>
+      obtain ⟨ak, av⟩ := a
+      intro h
+      simp only [Adapter.get] at h
+      by_cases hk : ak = kc
+      · subst hk; simp at h; subst h; exact List.mem_cons_self
+      · simp only [hk, if_false] at h; exact List.mem_cons_of_mem _ (ih h)
+  have := hmem _ _ _ h
+  show (e.id, Outcome.err err) ∈ s.done ++ _
+  apply List.mem_append_right
+  rw [List.mem_filterMap]
+  exact ⟨((k, c), some e), this, rfl⟩
+
+open Rv.CachePipe in
+/-- **A failing fetch cancels only its own flight.** Handling the failure of the fetch of (k, c) leaves every other
+    pending entry in the store, still with its own request on the wire, and wakes only the waiters of (k, c). -/
+theorem cancel_only_own_flights (mx base : Int) (evs : List Ev) (k c : Bytes) (err : Nat) (rest : List Msg)
+    (hq : (CachePipe.run (CachePipe.init mx base) evs).respQ = .fail k c err :: rest) (t : Int)
+    (e : Entry) (he : e ∈ (CachePipe.run (CachePipe.init mx base) evs).store.list) (hp : e.pend = true)
+    (hne : ¬ (e.key = k ∧ e.cmd = c)) :
+    let st := CachePipe.run (CachePipe.init mx base) evs
+    let st' := CachePipe.step st (.deliver t)
+    e ∈ st'.store.list ∧ (e.key, e.cmd) ∈ inFlight st' ∧
+    ∃ e0 ∈ st.store.list, e0.key = k ∧ e0.cmd = c ∧ st'.store.done = st.store.done ++ [(e0.id, .err err)] := by
+  intro st st'
+  have h := sf_run (pinv_init mx base) (sf_init mx base) evs
+  have hpi := pinv_run (pinv_init mx base) evs
+  have hst' : st'.store = cancel st.store k c err := by
+    show (CachePipe.step st (.deliver t)).store = _
+    simp only [CachePipe.step, show st.respQ = .fail k c err :: rest from hq, handle]
+  have hmem : e ∈ st'.store.list := by
+    rw [hst']
+    exact pending_persists hpi.store he hp (.cancel k c err)
+      (by simp only [Op.resolves]; simpa using (fun (h1 : k = e.key) (h2 : c = e.cmd) => hne ⟨h1.symm, h2.symm⟩))
+  have h' := sf_step hpi h (.deliver t)
+  obtain ⟨e0, he0, hk0, hc0, _, hd, _⟩ := failed_fetch_releases_all_waiters mx base evs k c err rest hq t
+  exact ⟨hmem, h'.flight_of e hmem hp, e0, he0, hk0, hc0, hd⟩
+
 /-! ### non-vacuity -/
 
 example : (flight (Lru.init 1000 336) [1] [2] 5 0).2 = .send ∧
